@@ -134,10 +134,19 @@ def check(ctx, run):
             got = "unknown: %s" % u
         want = invert ^ (equals if strict else contains)
         run.ob("R2", "TestFilter::match(strict=%d, invert=%d, equals=%d, contains=%d)" % (strict, invert, equals, contains), tf.site, got == want, witness={"folded": got, "oracle": want})
-    cs = [render(tf, c) for c in tf.calls()]
     pn = tf.params[0]["name"]
-    ok = ("(%s == filter_)" % pn in cs or "(filter_ == %s)" % pn in cs) and "%s.contains(filter_)" % pn in cs
-    run.ob("R2", "TestFilter::match compares the candidate with filter_ (contains in the right direction)", tf.site, ok, witness=cs)
+    okd, wit = True, []
+    for name_, filt, strict, want in (("abc", "b", 0, 1), ("b", "abc", 0, 0), ("abc", "abc", 1, 1), ("abc", "ab", 1, 0), ("ab", "abc", 1, 0), ("", "", 0, 1)):
+        ev = Evaluator(prog, tf, env={"strictMatching_": strict, "invertMatching_": 0, "filter_": ("str", filt), pn: ("str", name_)}, calls=string_hooks())
+        ev.pass_object = True
+        try:
+            ev.run_blocks(tf.entry, max_steps=200)
+            got = getattr(ev, "ret", None)
+        except Unknown as u:
+            got = "unknown: %s" % u
+        wit.append({"name": name_, "filter": filt, "strict": strict, "folded": got, "expected": want})
+        okd = okd and got == want
+    run.ob("R2", "TestFilter::match folded on strings: the candidate is compared with filter_ (the NAME contains the FILTER, not the other way round)", tf.site, okd, witness=wit)
 
     # ---------------- R3 ----------------------------------------------------
     ARR = "UtestShellPointerArray"
